@@ -69,6 +69,7 @@ pub fn generate(tier: Tier, rng: &mut Rng, sink: &mut dyn FnMut(Case)) {
     gen_layered(&mut g, tier);
     gen_wide(&mut g);
     gen_bigconf(&mut g, tier);
+    gen_timed(&mut g, tier);
     gen_malformed(&mut g, tier);
     gen_pair(&mut g, tier);
 }
@@ -698,6 +699,60 @@ fn gen_bigconf(g: &mut Gen, tier: Tier) {
             }
         }
         g.emit_b("bigconf-rand", ops, Vec::new());
+    }
+}
+
+// ---------------------------------------------------------------------------------------------
+// timed: path-rich layered block beside a disconnected chain (and variants), built under a
+// wall-clock budget: a path search that enumerates paths instead of nodes does not return
+// ---------------------------------------------------------------------------------------------
+
+fn gen_timed(g: &mut Gen, tier: Tier) {
+    let shapes: &[(usize, usize)] = match tier {
+        Tier::Quick => &[(3, 18), (2, 28)],
+        Tier::Thorough => &[(3, 12), (3, 14), (3, 16), (3, 18), (3, 20), (3, 22), (2, 22), (2, 26), (2, 30), (2, 34), (4, 10), (4, 14)],
+    };
+    for &(w, layers) in shapes {
+        let variants = match tier {
+            Tier::Quick => 1,
+            Tier::Thorough => 3,
+        };
+        for variant in 0..variants {
+            let block = w * layers;
+            let chain = layers + 1;
+            let n = block + chain;
+            let mut ops: Vec<Op> = (0..n)
+                .map(|i| {
+                    if variant == 2 && i % 5 == 0 {
+                        f_op(fixed_fid(i), &[Acc::R])
+                    } else {
+                        f_plain(fixed_fid(i))
+                    }
+                })
+                .collect();
+            for layer in 0..layers - 1 {
+                for a in 0..w {
+                    for b in 0..w {
+                        ops.push(Op::L(layer * w + a, (layer + 1) * w + b));
+                    }
+                }
+            }
+            match variant {
+                0 | 2 => {
+                    // a disconnected chain, one longer than the block is deep
+                    for i in 0..chain - 1 {
+                        ops.push(Op::L(block + i, block + i + 1));
+                    }
+                }
+                _ => {
+                    // chain inserted in reverse
+                    for i in (0..chain - 1).rev() {
+                        ops.push(Op::C(block + i, block + i + 1));
+                    }
+                }
+            }
+            g.emit_b("timed-side", ops, Vec::new());
+        }
     }
 }
 
